@@ -27,6 +27,12 @@ def targets(only):
         p = os.path.join(d, "patch.diff")
         if os.path.exists(p):
             pid = os.path.basename(d).split("-")[0]
+            # a change written against one property may be seen by the check of another one
+            # (recorded by hand in the file "caught_by": the id of that property)
+            other = os.path.join(d, "caught_by")
+            if os.path.exists(other):
+                with open(other) as f:
+                    pid = f.read().split()[0]
             out.append((pid, p, "seeded/" + os.path.basename(d)))
     if only:
         out = [t for t in out if t[0] in only]
